@@ -98,6 +98,10 @@ pub struct FamilyReport {
     pub samples: Vec<Value>,
     pub found: BTreeMap<String, FoundOut>,
     pub wall_s: f64,
+    /// situations (oracle::SITUATIONS) reached by at least one execution
+    pub reached: Vec<String>,
+    /// situations the family exists for that no execution reached
+    pub not_reached: Vec<String>,
 }
 
 #[derive(Clone, Debug)]
@@ -174,6 +178,18 @@ pub fn explore_family(prop: &str, tier: Tier, cfg: &Cfg, caps: &Caps) -> Result<
         samples,
         found,
         wall_s: st.wall_s,
+        reached: crate::oracle::SITUATIONS
+            .iter()
+            .enumerate()
+            .filter(|(i, _)| st.cover & (1u64 << i) != 0)
+            .map(|(_, s)| s.to_string())
+            .collect(),
+        not_reached: cfg
+            .must_reach
+            .iter()
+            .filter(|s| st.cover & crate::oracle::situation_bit(s) == 0)
+            .map(|s| s.to_string())
+            .collect(),
     })
 }
 
@@ -202,6 +218,9 @@ pub fn run_check(prop: &str, tier: Tier, caps: Caps) -> i32 {
                     r.capped.clone().map(|c| format!("CAPPED({})", c)).unwrap_or_else(|| "complete".into()),
                     r.wall_s
                 );
+                for s in &r.not_reached {
+                    println!("  note: family {} did not reach: {}", r.name, s);
+                }
                 reports.push(r);
             }
             Err(e) => {
@@ -305,6 +324,8 @@ pub fn finish(prop: &str, tier: Tier, reports: Vec<FamilyReport>, n_self: usize,
                 "distinct_outcome_classes": r.outcomes, "exhaustive_within_bounds": r.exhaustive,
                 "cap_hit": r.capped, "wall_s": r.wall_s,
                 "finding_signatures": r.found.keys().collect::<Vec<_>>(),
+                "situations_reached": r.reached,
+                "intended_situations_not_reached": r.not_reached,
             })
         })
         .collect();
